@@ -128,7 +128,7 @@ func runC03(c *Check, a *Analysis) {
 		for _, tbl := range []string{"pending", "streams"} {
 			var rng *MapOp
 			for _, m := range p.mapOps("Conn", tbl) {
-				if m.Kind == "range" && m.Fn == fn {
+				if m.Kind == "range" && p.sameFn(m.Fn, fn) {
 					mm := m
 					rng = &mm
 				}
@@ -392,7 +392,7 @@ func closureReachesLookup(p *Prog, cl *ssa.Function) bool {
 		}
 		seen[f] = true
 		for _, l := range pendingOps(p, "lookup") {
-			if l.Fn == f {
+			if p.sameFn(l.Fn, f) {
 				return true
 			}
 		}
@@ -426,7 +426,7 @@ func ruleServerClose(c *Check, a *Analysis, rule string) {
 	}
 	var rng *MapOp
 	for _, m := range p.mapOps("Server", "listeners") {
-		if m.Kind == "range" && m.Fn == closeFn {
+		if m.Kind == "range" && p.sameFn(m.Fn, closeFn) {
 			mm := m
 			rng = &mm
 		}
@@ -434,7 +434,7 @@ func ruleServerClose(c *Check, a *Analysis, rule string) {
 	// ranging over a slice lowers to index loops: accept "len" + "index"
 	var idx *MapOp
 	for _, m := range p.mapOps("Server", "listeners") {
-		if m.Kind == "index" && m.Fn == closeFn {
+		if m.Kind == "index" && p.sameFn(m.Fn, closeFn) {
 			mm := m
 			idx = &mm
 		}
@@ -459,7 +459,7 @@ func ruleServerClose(c *Check, a *Analysis, rule string) {
 		// the loop is on every path
 		var first ssa.Instruction
 		for _, ac := range p.fieldAccesses("Server", "listeners") {
-			if ac.Fn == closeFn && ac.Kind == "read" && first == nil {
+			if p.sameFn(ac.Fn, closeFn) && ac.Kind == "read" && first == nil {
 				first = ac.Instr
 			}
 		}
